@@ -3,7 +3,9 @@
    target library's style) and anstyle-syntect (syntect style -> anstyle::Style),
    driven by the translated tables of Generated/Adapters.v.  The statement skeleton
    of every function modelled here is pinned token for token by the translator
-   (tools/gen_adapters.py).  Definitions only.
+   (tools/gen_adapters.py), and every function is also TRANSLATED as a whole
+   (tools/gen_fn_adapters.py -> Generated/AdaptersFn.v) and proved equal to this
+   model (Proofs/AdaptersGen.v).  Definitions only.
 
    An anstyle::Style is the record [sstyle] of Spec/Sgr (three optional colours,
    effects as a bit set); a target style is the abstract [ad_tstyle] of
